@@ -102,13 +102,11 @@ class Ref:
         self.declared = {}
         for p in comp.probe_names:
             if p in ("ack", "err", "rty", "stall", "dat_r"):
-                self.declared[p] = {"adr"} | {f"s{k}_{p}" for k in range(self.n) if f"s{k}_{p}" in self.ii}
+                self.declared[p] = {"adr", "cyc"} | {f"s{k}_{p}" for k in range(self.n) if f"s{k}_{p}" in self.ii}
             else:
                 k, nme = p.split("_", 1)
-                d = {"adr"}
-                if nme == "cyc":
-                    d.add("cyc")
-                elif nme != "adr" and nme in self.ii:
+                d = {"adr", "cyc"}
+                if nme != "adr" and nme in self.ii:
                     d.add(nme)
                 self.declared[p] = d
 
@@ -140,10 +138,11 @@ class Ref:
         adr = g("adr")
         sel = self.selected(adr)
         exp = {}
+        cyc = g("cyc")
         for k, s in enumerate(self.subs):
-            exp[f"s{k}_cyc"] = g("cyc") if k == sel else 0
-            if k != sel:
-                continue
+            exp[f"s{k}_cyc"] = cyc if k == sel else 0
+            if k != sel or not cyc:
+                continue          # request signals are claimed for the subordinate that SEES the cycle
             exp[f"s{k}_stb"] = g("stb")
             exp[f"s{k}_we"] = g("we")
             sdw = s["dw"]
@@ -159,10 +158,19 @@ class Ref:
                 exp[f"s{k}_sel"] = g("sel")
         # responses: assumption "subordinates respond only while selected"
         stray = any(g(f"s{k}_{n}") for k in range(self.n) if k != sel for n in ("ack", "err", "rty", "stall"))
+        # relayed while a cycle is in progress; "an address that selects nobody produces no response"
         for n in ("ack", "err", "rty", "stall"):
             if n == "ack" or n in self.feat:
-                exp[n] = None if stray else (g(f"s{sel}_{n}") if sel is not None else 0)
-        exp["dat_r"] = g(f"s{sel}_dat_r") if sel is not None else 0
+                if sel is None:
+                    exp[n] = None if stray else 0
+                elif stray or not cyc or f"s{sel}_{n}" not in ii:
+                    exp[n] = None       # (a selected subordinate lacking the line: not constrained by the property)
+                else:
+                    exp[n] = g(f"s{sel}_{n}")
+        if sel is None:
+            exp["dat_r"] = 0
+        else:
+            exp["dat_r"] = g(f"s{sel}_dat_r") if cyc else None
         return exp
 
 
